@@ -315,11 +315,9 @@ func checkJoinAndWaitFor(p *Prog, r *Report) {
 	rtF := p.Field(pkgReceiver, "Transfer", "retouchDirPerms")
 	if do != nil && rtF != nil {
 		var wait ssa.Instruction
-		allCalls(do, func(c ssa.CallInstruction) {
-			if calleeName(c) == "(*golang.org/x/sync/errgroup.Group).Wait" {
-				wait = c
-			}
-		})
+		if _, _, j := findJoin(p, do); j != nil {
+			wait = j
+		}
 		ok := wait != nil
 		for _, b := range do.Blocks {
 			for _, in := range b.Instrs {
